@@ -827,16 +827,20 @@ pub fn run(tier: &str) -> i32 {
     let mut first_by_key: BTreeMap<(String, String), (Job, JobResult, String, u64)> = BTreeMap::new();
     let mut count_by_key: BTreeMap<(String, String), u64> = BTreeMap::new();
     let mut logfold = Fold::new();
+    let mut all_shards: BTreeMap<String, Vec<Vec<Job>>> = BTreeMap::new();
     for profile in ["release", "dev"] {
         let jobs = gen_jobs(vs, tier, profile);
         // shards: interleave so every shard has a mix of cheap and dear jobs
-        let nshards = workers().min(jobs.len().max(1));
+        // a fixed number of shards (not the worker count): which jobs share a child
+        // process, and in which order, is part of the deterministic plan
+        let nshards = 16usize.min(jobs.len().max(1));
         let mut shards: Vec<Vec<Job>> = vec![vec![]; nshards];
         for (i, j) in jobs.iter().enumerate() {
             shards[i % nshards].push(j.clone());
         }
+        all_shards.insert(profile.to_string(), shards.clone());
         let prof = profile.to_string();
-        let shard_results = par_map(nshards, nshards, move |si| run_jobs(&prof, &shards[si], watchdog));
+        let shard_results = par_map(nshards, workers(), move |si| run_jobs(&prof, &shards[si], watchdog));
         let mut by_id: BTreeMap<usize, JobResult> = BTreeMap::new();
         for sr in shard_results {
             match sr {
@@ -919,6 +923,28 @@ pub fn run(tier: &str) -> i32 {
         all_results.insert(profile.to_string(), (jobs.len(), ok));
     }
     for ((okey, profile), (job, _r, detail, seed)) in first_by_key.iter() {
+        // does the job fail this way on its own, in a fresh process? if not, it depends
+        // on the jobs its child process ran before it: replay that prefix
+        let alone = run_jobs(profile, std::slice::from_ref(job), watchdog)
+            .ok()
+            .and_then(|rs| rs.first().and_then(|r| judge(job, r)))
+            .map(|(k, _)| k == *okey)
+            .unwrap_or(false);
+        if !alone {
+            let shards = &all_shards[profile];
+            let si = job.id % shards.len();
+            let pos = shards[si].iter().position(|j| j.id == job.id).unwrap_or(0);
+            let prefix: Vec<Value> = shards[si][..=pos].iter().map(|j| j.to_json()).collect();
+            ev.violations.push(Violation {
+                property: "C08".into(),
+                oracle: okey.clone(),
+                key: format!("{okey}:history:{profile}:shard{si}:0..={pos}"),
+                detail: format!("[{profile}] consumer={} {}: {} — not reproducible from this run alone in a fresh process: it depends on the {pos} runs the same worker process drained before it (the replay re-runs them)", job.consumer, job.scen.short(), detail),
+                seed: *seed,
+                replay: json!({"kind":"c08_history","profile":profile,"jobs":prefix,"expected_oracle":okey}),
+            });
+            continue;
+        }
         let (min, tried) = minimise(profile, job, okey, watchdog);
         let fin = run_jobs(profile, std::slice::from_ref(&min), watchdog)
             .ok()
@@ -978,6 +1004,14 @@ pub fn run(tier: &str) -> i32 {
 pub fn replay(v: &Value) -> Option<(String, String)> {
     let r = &v["replay"];
     let profile = r["profile"].as_str().unwrap_or("release").to_string();
+    if r["kind"].as_str() == Some("c08_history") {
+        let jobs: Vec<Job> = r["jobs"].as_array()?.iter().filter_map(|j| Job::from_json(j).ok()).collect();
+        let rs = run_jobs(&profile, &jobs, Duration::from_secs(900)).ok()?;
+        let last = jobs.last()?;
+        let res = rs.iter().find(|x| x.id == last.id)?;
+        let tail = v["key"].as_str().and_then(|k| k.split_once(":history:")).map(|x| x.1.to_string()).unwrap_or_default();
+        return judge(last, res).map(|(k, d)| (format!("{k}:history:{tail}"), format!("[{profile}] {d}")));
+    }
     let job = Job::from_json(&r["job"]).ok()?;
     let rs = run_jobs(&profile, std::slice::from_ref(&job), Duration::from_secs(900)).ok()?;
     let res = rs.first()?;
